@@ -8,7 +8,7 @@
    invariant MI and Hoare proof in Proofs/MeekRun.v, MeekCount.v). *)
 From Coq Require Import ZArith List Bool String PArith Lia.
 From Droop Require Import Model.KernelBase Model.Arith Model.Prelude Model.State Model.Prims Model.RulesMeek Model.Election
-  Proofs.Zlike Proofs.MeekDist Proofs.MeekKf Proofs.ConserveCount Proofs.MeekRun Proofs.MeekKfRun Proofs.MeekCount.
+  Proofs.Zlike Proofs.MeekDist Proofs.MeekKf Proofs.ConserveCount Proofs.MeekRun Proofs.MeekKfRun Proofs.MeekPrfRun Proofs.MeekCount.
 Import ListNotations.
 Open Scope Z_scope.
 
@@ -84,6 +84,22 @@ Theorem C08_end_snapshot_conserves_votes_whole_run : forall A S (ZL : zlike A S)
 Proof. exact count_meek_end. Qed.
 Print Assumptions C08_end_snapshot_conserves_votes_whole_run.
 
+(* ---- meek-prf, whole runs (any integer-carrier arithmetic, any guard) ----
+   [claimed t m]: the action is a 'begin', 'elect', 'tie' or 'defeat' action whose message is not an "Elect remaining" /
+   "Defeat remaining" one -- the snapshots the property names for meek-prf (its 'round' and '... remaining' snapshots
+   are taken between the zeroing of an excluded tally and the next distribution).  Every such snapshot of a count that
+   ends without a crash shows tallies + residual = the strictly ranked ballots cast (meek-prf does not read ballots
+   with equal rankings), and the final 'end' action shows tallies + residual = the ballot count given to the count. *)
+Theorem C08_meek_prf_snapshots_conserve_votes_whole_run : forall A S (ZL : zlike A S) cfg, cf_method cfg = MMeek ->
+  forall pr fuel s k, wf_profile pr ->
+  exec (@crashed A) fuel (count_cmd A cfg RMeekPrf) (init_state A cfg pr) = Some (s, k) -> k <> Abort ->
+  (forall a sn, In a (actions s) -> claimed (a_tag a) (a_msg a) = true -> a_snap a = Some sn ->
+     raw ZL (as_votes sn) + match as_nt sn with Some x => raw ZL x | None => 0 end = S * ballot_total pr) /\
+  (exists a rest sn, actions s = a :: rest /\ a_tag a = TEnd /\ a_snap a = Some sn /\
+     raw ZL (as_votes sn) + match as_nt sn with Some x => raw ZL x | None => 0 end = cf_nballots cfg * S).
+Proof. exact count_meek_prf. Qed.
+Print Assumptions C08_meek_prf_snapshots_conserve_votes_whole_run.
+
 (* ... and under the arithmetics whose comparisons and explicit roundings are exact (Fixed, integer, Guarded with guard 0),
    in every 'iterate' snapshot of such a count: no tally is negative, a hopeful candidate's keep factor is 1, an elected
    one's lies in (0, 1], a defeated or withdrawn one's is 0 (kfs reads an unset factor as 0), and the residual is not
@@ -129,3 +145,14 @@ Proof.
   - intros m r H. cbn in H. destruct H as [H|[H|[H|[]]]]; inversion H; subst; (split; [lia|]); intros c Hin; apply Hc; cbn in *; tauto.
   - intros m r H. cbn in H. destruct H as [H|[]]. inversion H; subst. split; [lia|]. intros g c Hg Hin. apply Hc. cbn in Hg. destruct Hg as [<-|[<-|[]]]; cbn in *; tauto.
 Qed.
+
+(* the meek-prf theorem is not vacuous: a count records claimed snapshots *)
+Definition claimed_snaps (A : arith) (s : est A) : nat :=
+  List.length (filter (fun a => claimed (a_tag a) (a_msg a) && match a_snap a with Some _ => true | None => false end) (actions s)).
+Example C08_meek_prf_nonvacuous :
+  match exec (@crashed _) (2 ^ 12)%positive (count_cmd (Fixed 9 9) (mkConfig "meek-prf" MMeek 2 7 false false false false 6) RMeekPrf)
+             (init_state (Fixed 9 9) (mkConfig "meek-prf" MMeek 2 7 false false false false 6) c08_profile) with
+  | Some (s, Next) => (3 <= claimed_snaps _ s)%nat
+  | _ => False end.
+Proof. vm_compute. repeat constructor. Qed.
+
